@@ -488,11 +488,13 @@ func createSwitchStatementChunks(stmt *ast.SwitchStatement, statementIndex int, 
 
 	branchBehavior := &switchBranch{operand: stmt.Operand}
 	branchCases := []*switchCaseBranch{}
-	i := 0
-	processedDefaultCase := false
-	for i < len(stmt.Cases) {
-		switchCase := stmt.Cases[i]
-		destChunkID := -1
+
+	// Create exactly one chunk per case body, in source order. A case without a
+	// body shares the body of the next case that has one.
+	bodyChunkIDs := make([]int, len(stmt.Cases))
+	numBodies := 0
+	for i, switchCase := range stmt.Cases {
+		bodyChunkIDs[i] = -1
 		if len(switchCase.Body.Statements) > 0 {
 			*chunkCounter++
 			caseChunk := &chunk{
@@ -501,80 +503,60 @@ func createSwitchStatementChunks(stmt *ast.SwitchStatement, statementIndex int, 
 				statements: switchCase.Body.Statements,
 			}
 			remainingChunks = append(remainingChunks, caseChunk)
-			destChunkID = caseChunk.id
-			if switchCase.IsDefault {
+			bodyChunkIDs[i] = caseChunk.id
+			numBodies++
+		}
+	}
+	if numBodies == 0 {
+		// None of the cases have a body, so the switch statement is a no-op. By
+		// early-returning here, we avoid adding the switch branchBehavior, which
+		// will result in the switch not being rendered in the output.
+		return remainingChunks, &jump{destChunkID: switchChunk.id}, returnID
+	}
+	for i := len(stmt.Cases) - 2; i >= 0; i-- {
+		if bodyChunkIDs[i] == -1 {
+			bodyChunkIDs[i] = bodyChunkIDs[i+1]
+		}
+	}
+
+	trailingEmptyCases := []*ast.SwitchCase{}
+	for i, switchCase := range stmt.Cases {
+		if switchCase.IsDefault {
+			if bodyChunkIDs[i] != -1 {
 				branchBehavior.defaultCase = &switchCaseBranch{
 					comparisonValue: stmt.DefaultCase.Value,
-					destChunkID:     caseChunk.id,
-				}
-				processedDefaultCase = true
-			}
-		} else {
-			// Scan forward for the shared case body.
-			for j := i + 1; j < len(stmt.Cases); j++ {
-				if len(stmt.Cases[j].Body.Statements) > 0 {
-					*chunkCounter++
-					caseChunk := &chunk{
-						id:         *chunkCounter,
-						returnID:   returnID,
-						statements: stmt.Cases[j].Body.Statements,
-					}
-					remainingChunks = append(remainingChunks, caseChunk)
-					destChunkID = caseChunk.id
-					if stmt.Cases[j].IsDefault {
-						branchBehavior.defaultCase = &switchCaseBranch{
-							comparisonValue: stmt.DefaultCase.Value,
-							destChunkID:     caseChunk.id,
-						}
-						processedDefaultCase = true
-					}
-
-					// Apply this chunk body to all of the previous shared cases.
-					for i < j {
-						if stmt.Cases[i].IsDefault {
-							defaultChunk := &chunk{
-								id:         *chunkCounter,
-								returnID:   returnID,
-								statements: stmt.Cases[j].Body.Statements,
-							}
-							remainingChunks = append(remainingChunks, defaultChunk)
-							branchBehavior.defaultCase = &switchCaseBranch{
-								comparisonValue: stmt.DefaultCase.Value,
-								destChunkID:     destChunkID,
-							}
-							processedDefaultCase = true
-						} else {
-							branchCases = append(branchCases, &switchCaseBranch{
-								comparisonValue: stmt.Cases[i].Value,
-								destChunkID:     destChunkID,
-							})
-						}
-						i++
-					}
-					break
+					destChunkID:     bodyChunkIDs[i],
 				}
 			}
-		}
-		if destChunkID == -1 {
-			// If we're here, it means that there was no body for the last case(s).
-			// This is syntactically fine, but if there are no other switch cases with
-			// bodies, we want to completely omit even rendering the switch statement because
-			// it's a no-op. By early-returning here, we avoid adding the switch branchBehavior,
-			// which will result in the switch not being rendered in the output.
-			if len(branchCases) == 0 {
-				return remainingChunks, &jump{destChunkID: switchChunk.id}, returnID
-			}
-		} else if !stmt.Cases[i].IsDefault {
+		} else if bodyChunkIDs[i] != -1 {
 			branchCases = append(branchCases, &switchCaseBranch{
-				comparisonValue: stmt.Cases[i].Value,
-				destChunkID:     destChunkID,
+				comparisonValue: switchCase.Value,
+				destChunkID:     bodyChunkIDs[i],
+			})
+		} else {
+			trailingEmptyCases = append(trailingEmptyCases, switchCase)
+		}
+	}
+	if branchBehavior.defaultCase != nil && len(trailingEmptyCases) > 0 {
+		// Body-less cases at the end of the switch do nothing. When there is a default
+		// case, they still need a destination so that they don't end up in the default.
+		*chunkCounter++
+		emptyChunk := &chunk{
+			id:         *chunkCounter,
+			returnID:   returnID,
+			statements: []ast.Statement{},
+		}
+		remainingChunks = append(remainingChunks, emptyChunk)
+		for _, switchCase := range trailingEmptyCases {
+			branchCases = append(branchCases, &switchCaseBranch{
+				comparisonValue: switchCase.Value,
+				destChunkID:     emptyChunk.id,
 			})
 		}
-		i++
 	}
 
 	branchBehavior.cases = branchCases
-	if !processedDefaultCase {
+	if branchBehavior.defaultCase == nil {
 		branchBehavior.destChunkID = returnID
 	}
 	switchChunk.branchBehavior = branchBehavior
